@@ -34,6 +34,12 @@ CHECKS = {
    text="Zoned +/- span and absolute durations in checked, saturating and operator forms, plus start_of_day/end_of_day/tomorrow/yesterday, are compared with the reference interpreter over every installed, synthetic and POSIX zone; 19% of span cases have their civil intermediate inside a gap or fold by construction.",
    note="Trusted: reftz.rs, refarith.rs. Two listed findings (start/end of day when midnight lies strictly inside a gap; odd synthetic zones and right/Asia/Tehran only).",
    design="DESIGN.md section 3 C06"),
+ "C07": dict(
+   technique="proptest generation of ordered pairs per type x every permitted largest unit; metamorphic/structural oracle (a + until(a,b) == b, sign, largest bound, balance by 'one more overshoots', since == -until, exact duration)",
+   category="exploration",
+   text="Pairs of dates, datetimes, times, timestamps and zoned datetimes (built around every zone's transitions, both sides of folds, same wall clock k days apart) are differenced with every permitted largest unit; reversibility, sign consistency, balance and negation laws are checked on each result, and no input may panic.",
+   note="Trusted: jiff's own addition as metamorphic carrier (decided independently by C06/C08). Calendar balance for year/month units follows Temporal's unconstrained-date comparison; intermediates falling in a gap are not judged for balance. One listed finding (Temporal-conformant 24h+ remainder when the end is the later instant of a fold).",
+   design="DESIGN.md section 3 C07"),
  "C08": dict(
    technique="proptest generation of (civil value, span/duration) pairs up to the unit limits against a reference interpreter on day numbers and i128 nanoseconds (differential oracle)",
    category="exploration",
